@@ -217,6 +217,10 @@ func (evm *EVM) TransferAssetTx(caller ContractRef, addr common.Address, gas uin
 	if amount == nil || senderEquity.Equity == nil || senderEquity.Equity.Cmp(big.NewInt(0)) <= 0 {
 		return nil, gas, ErrAssetEquity, nil
 	}
+	// a negative amount would move the asset from the receiver to the sender, or increase the total supply when it is sent to the burn address
+	if amount.Sign() < 0 {
+		return nil, gas, ErrNegativeAssetAmount, nil
+	}
 	// get asset
 	issuer, err := assetDB.GetAssetCode(senderEquity.AssetCode)
 	if err != nil {
